@@ -210,8 +210,9 @@ def orchestrate(args):
     except Exception:
         pass
     if harness_errors:
-        for h in harness_errors[:5]:
-            print("HARNESS-ERROR", h[-3000:], file=sys.stderr)
+        for h in harness_errors[:2]:
+            print("HARNESS-ERROR", h[-1800:], file=sys.stderr)
+        print(f"HARNESS-ERROR count={len(harness_errors)} property={prop}", file=sys.stderr)
         if not seen_keys:
             return 2
     return 1 if seen_keys else 0
